@@ -51,6 +51,10 @@ def run(tier, seed, res, lean):
     gb = [p for i in range(12 if tier == 'quick' else 80) for p in suite_ghash.run_byvalue_groups(seed * 467 + i) if p['kind'] == 'c04']
     for b in gb[:3]:
         res.violations.append(Violation('c04-grouped-by-value', b['msg'][:400], {'suite': 'S-GHASH/by-value groups', **b}))
+    # one function with default parameters bound under different keyword names, the fields behind ONE disk cache
+    from .. import suite_hash as _sh
+    for p in [p for i in range(3 if tier == 'quick' else 20) for p in _sh.run_default_keywords(seed * 7 + i) if p['kind'] in ('cache', 'error')][:2]:
+        res.violations.append(Violation('c04-default-keywords', p['msg'][:400], {'suite': 'S-HASH/default-keywords', **p}))
     # concrete values (numpy arrays, dicts with unusual keys, nested containers, ...) through the default serializers
     zoo_bad, zoo_calls = suite_cache.run_value_zoo(paths.SCRATCH)
     for b in zoo_bad[:4]:
